@@ -2,7 +2,6 @@ package graphql
 
 import (
 	"fmt"
-	"hash/fnv"
 	"strconv"
 
 	"github.com/graphql-go/graphql/language/ast"
@@ -104,7 +103,7 @@ func normalizeDocument(schema *Schema, doc *ast.Document, operationName string) 
 		// No literals to extract — return early. Fingerprint the
 		// original doc (over the operation + reachable fragments)
 		// for the cache key.
-		return doc, nil, fingerprintDocument(doc, op, operationName), nil
+		return doc, nil, printedKey(doc), nil
 	}
 
 	// Append the new synth-variable definitions to the operation.
@@ -122,249 +121,20 @@ func normalizeDocument(schema *Schema, doc *ast.Document, operationName string) 
 		}
 	}
 	newDoc := &ast.Document{Kind: doc.Kind, Loc: doc.Loc, Definitions: newDefs}
-	return newDoc, ctx.synthArgs, fingerprintDocument(newDoc, newOp, operationName), nil
+	return newDoc, ctx.synthArgs, printedKey(newDoc), nil
 }
 
-// fingerprintDocument produces a canonical string identifying the
-// normalized structural shape of `op` (and any fragments it spreads,
-// recursively). Two queries with the same shape — but possibly
-// different extracted literals — produce the same fingerprint, so
-// they collapse to one PlanCache entry.
-//
-// We use a 64-bit FNV-1a hash so the cache key stays tiny regardless
-// of query size; collisions over a 1024-entry cache are
-// vanishingly improbable, and the schema-pointer guard inside the
-// cache catches any cross-schema accident.
-//
-// The fingerprint captures: operation type, operation name, variable
-// definitions, and the selection tree (field names, arg names, sub-
-// selections, fragment spreads). It deliberately ignores literal
-// values that survived normalization — those are encoded by their
-// AST kind only — so two normalize-equivalent queries hash the
-// same.
-func fingerprintDocument(doc *ast.Document, op *ast.OperationDefinition, operationName string) string {
-	h := fnv.New64a()
-	w := fingerprintWriter{h: h, fragments: collectFragmentDefs(doc)}
-	w.writeString("OP:")
-	w.writeString(string(op.Operation))
-	w.writeByte(0)
-	w.writeString(operationName)
-	w.writeByte(0)
-	w.writeVariableDefs(op.VariableDefinitions)
-	w.writeDirectives(op.Directives)
-	w.writeSelectionSet(op.SelectionSet)
-	return strconv.FormatUint(h.Sum64(), 16)
-}
-
-func collectFragmentDefs(doc *ast.Document) map[string]*ast.FragmentDefinition {
-	out := map[string]*ast.FragmentDefinition{}
-	for _, def := range doc.Definitions {
-		if fd, ok := def.(*ast.FragmentDefinition); ok && fd.Name != nil {
-			out[fd.Name.Value] = fd
-		}
-	}
-	return out
-}
-
-// fingerprintWriter walks the AST and feeds canonical bytes into the
-// hash. Separate from the normalizer's mutating walker because we
-// need a different traversal: we follow fragment spreads here (so
-// spread-reachable structure participates in the cache key), but we
-// don't rewrite anything.
-type fingerprintWriter struct {
-	h         interface{ Write([]byte) (int, error) }
-	fragments map[string]*ast.FragmentDefinition
-	visited   map[string]bool
-}
-
-func (w *fingerprintWriter) writeString(s string) { _, _ = w.h.Write([]byte(s)) }
-func (w *fingerprintWriter) writeByte(b byte)     { _, _ = w.h.Write([]byte{b}) }
-
-func (w *fingerprintWriter) writeVariableDefs(defs []*ast.VariableDefinition) {
-	w.writeString("VD(")
-	for _, d := range defs {
-		if d == nil || d.Variable == nil || d.Variable.Name == nil {
-			continue
-		}
-		w.writeString(d.Variable.Name.Value)
-		w.writeByte(':')
-		w.writeType(d.Type)
-		if d.DefaultValue != nil {
-			w.writeByte('=')
-			w.writeValue(d.DefaultValue)
-		}
-		w.writeByte(',')
-	}
-	w.writeByte(')')
-}
-
-func (w *fingerprintWriter) writeType(t ast.Type) {
-	switch tt := t.(type) {
-	case *ast.NonNull:
-		w.writeType(tt.Type)
-		w.writeByte('!')
-	case *ast.List:
-		w.writeByte('[')
-		w.writeType(tt.Type)
-		w.writeByte(']')
-	case *ast.Named:
-		if tt != nil && tt.Name != nil {
-			w.writeString(tt.Name.Value)
-		}
-	}
-}
-
-// writeDirectives writes every directive with its argument values. Directives change what a
-// selection means (@skip/@include) and their arguments are validated, so two documents that differ in
-// a directive must not share a cache entry.
-func (w *fingerprintWriter) writeDirectives(ds []*ast.Directive) {
-	for _, d := range ds {
-		if d == nil || d.Name == nil {
-			continue
-		}
-		w.writeByte('@')
-		w.writeString(d.Name.Value)
-		w.writeByte('(')
-		for _, a := range d.Arguments {
-			if a == nil || a.Name == nil {
-				continue
-			}
-			w.writeString(a.Name.Value)
-			w.writeByte('=')
-			w.writeValue(a.Value)
-			w.writeByte(',')
-		}
-		w.writeByte(')')
-	}
-}
-
-func (w *fingerprintWriter) writeSelectionSet(sel *ast.SelectionSet) {
-	if sel == nil {
-		return
-	}
-	w.writeByte('{')
-	for _, isel := range sel.Selections {
-		switch s := isel.(type) {
-		case *ast.Field:
-			if s.Alias != nil {
-				w.writeString(s.Alias.Value)
-				w.writeByte(':')
-			}
-			if s.Name != nil {
-				w.writeString(s.Name.Value)
-			}
-			if len(s.Arguments) > 0 {
-				w.writeByte('(')
-				for _, a := range s.Arguments {
-					if a == nil || a.Name == nil {
-						continue
-					}
-					w.writeString(a.Name.Value)
-					w.writeByte('=')
-					w.writeValue(a.Value)
-					w.writeByte(',')
-				}
-				w.writeByte(')')
-			}
-			w.writeDirectives(s.Directives)
-			w.writeSelectionSet(s.SelectionSet)
-			w.writeByte(';')
-		case *ast.InlineFragment:
-			w.writeString("...")
-			if s.TypeCondition != nil && s.TypeCondition.Name != nil {
-				w.writeString(s.TypeCondition.Name.Value)
-			}
-			w.writeDirectives(s.Directives)
-			w.writeSelectionSet(s.SelectionSet)
-			w.writeByte(';')
-		case *ast.FragmentSpread:
-			w.writeString("...")
-			if s.Name != nil {
-				w.writeString(s.Name.Value)
-				w.writeDirectives(s.Directives)
-				w.writeByte(';')
-				w.writeFragmentBody(s.Name.Value)
-			}
-		}
-	}
-	w.writeByte('}')
-}
-
-func (w *fingerprintWriter) writeFragmentBody(name string) {
-	if w.visited == nil {
-		w.visited = map[string]bool{}
-	}
-	if w.visited[name] {
-		return
-	}
-	w.visited[name] = true
-	frag, ok := w.fragments[name]
-	if !ok {
-		return
-	}
-	w.writeByte('F')
-	if frag.TypeCondition != nil && frag.TypeCondition.Name != nil {
-		w.writeString(frag.TypeCondition.Name.Value)
-	}
-	w.writeDirectives(frag.Directives)
-	w.writeSelectionSet(frag.SelectionSet)
-}
-
-// writeValue writes canonical bytes for an ast.Value. Variables are
-// hashed by name (so synth var names from normalization participate
-// in the key). Literals that survived normalization are hashed as
-// their kind+content — two identical un-extractable literals map to
-// the same fingerprint, two different ones don't.
-func (w *fingerprintWriter) writeValue(v ast.Value) {
-	switch n := v.(type) {
-	case nil:
-		w.writeByte('n')
-	case *ast.Variable:
-		w.writeByte('V')
-		if n.Name != nil {
-			w.writeString(n.Name.Value)
-		}
-	case *ast.IntValue:
-		w.writeByte('i')
-		w.writeString(n.Value)
-	case *ast.FloatValue:
-		w.writeByte('f')
-		w.writeString(n.Value)
-	case *ast.StringValue:
-		w.writeByte('s')
-		w.writeString(strconv.Itoa(len(n.Value)))
-		w.writeByte(':')
-		w.writeString(n.Value)
-	case *ast.BooleanValue:
-		w.writeByte('b')
-		if n.Value {
-			w.writeByte('1')
-		} else {
-			w.writeByte('0')
-		}
-	case *ast.EnumValue:
-		w.writeByte('e')
-		w.writeString(n.Value)
-	case *ast.ListValue:
-		w.writeByte('[')
-		for _, item := range n.Values {
-			w.writeValue(item)
-			w.writeByte(',')
-		}
-		w.writeByte(']')
-	case *ast.ObjectValue:
-		w.writeByte('{')
-		for _, f := range n.Fields {
-			if f == nil || f.Name == nil {
-				continue
-			}
-			w.writeString(f.Name.Value)
-			w.writeByte('=')
-			w.writeValue(f.Value)
-			w.writeByte(',')
-		}
-		w.writeByte('}')
-	}
+// printedKey is the cache identifier of a (normalised) document: "doc:" + its printed text. The text determines
+// the document up to source positions (the printer's output parses back to the same tree), so two requests share
+// a cache entry only when their normalised documents are the same - including the operations and fragments the
+// selected operation does not reach, which validation looks at all the same. The "doc:" tag keeps these keys apart
+// from the "raw:" keys of requests normalisation does not apply to. (A 64-bit hash of a structural walk of the
+// selected operation was used here before: it collides - two requests differing in a 13-character string literal
+// inside a fragment were found by a birthday search in minutes - and it did not see the rest of the document, so
+// `query A { a } query B { nope }` was served from the entry of `query A { a } query B { b }`.)
+func printedKey(doc *ast.Document) string {
+	s, _ := printer.Print(doc).(string)
+	return "doc:" + s
 }
 
 // normCtx threads state across the recursive walk: schema for type
